@@ -23,7 +23,7 @@ use std::sync::atomic::{AtomicU64, Ordering};
 use std::sync::{Arc, Mutex, OnceLock};
 use std::time::{Duration, Instant};
 
-const WATCHDOG: Duration = Duration::from_secs(20);
+const WATCHDOG: Duration = Duration::from_secs(15);
 const NONE: usize = usize::MAX;
 
 // ------------------------------------------------------------------------------------------
@@ -1043,14 +1043,27 @@ struct Runner {
     sv: Servers,
     out: Out,
     n: usize,
+    timeouts: usize,
 }
 
 impl Runner {
     fn finish_case(&mut self, r: RawResult) {
         for (sig, detail) in &r.failures {
             self.out.oracle_fail(sig, detail, &[r.op.clone()]);
+            if sig.contains("timeout") {
+                self.timeouts += 1;
+            }
         }
         self.out.case(&r.op, &r.obs, r.nontrivial);
+        if self.timeouts >= 3 {
+            // hung producers keep spinning; every further case would only wait for the watchdog again
+            self.out.count("svs.aborted_after_timeouts");
+            let spare = self.out.dir.join("spare");
+            let _ = std::fs::create_dir_all(&spare);
+            let out = std::mem::replace(&mut self.out, Out::new(&spare));
+            out.finish();
+            std::process::exit(0);
+        }
     }
     fn raw(&mut self, p: &Params, script: &str) {
         self.n += 1;
@@ -1154,7 +1167,7 @@ fn boundary_lengths(chunk: usize, kmax: usize) -> Vec<usize> {
 fn main() {
     let args = Args::parse();
     quiet_panics();
-    let mut run = Runner { sv: Servers::new(), out: Out::new(&args.out), n: 0 };
+    let mut run = Runner { sv: Servers::new(), out: Out::new(&args.out), n: 0, timeouts: 0 };
     run.out.rule = "real Server (tcp) and WebSocketServer (ws), every producer kind (value: unit/string/struct; typed u8/f64; complex f32; reader with 1..100000-byte reads, Interrupted reads; writer with random write/flush scripts), chunk sizes {1,2,3,7,64,4096,1MiB}, payload lengths k*chunk-1,k*chunk,k*chunk+1 for k=0..4 plus random, depths 0..8, zstd on/off (for zstd the compressed stream is recorded from a separate pull of the same resource), slow producer / slow consumer, failure (Err and panic) injected at k*chunk-1,k*chunk,k*chunk+1 written bytes, scripts of next/cancel (request and notify)/next-past-the-end; then pull_to_vec, pull_value, pull_typed_slice, pull_complex_slice and their async forms over Client, AsyncClient and WebSocketClient. Distinct by op line without its index; non-trivial = at least two pulls or three script steps (raw), payload longer than one chunk or failing producer (hl)".into();
     if let Some(ops) = args.replay_ops() {
         for l in ops {
